@@ -21,44 +21,48 @@ type seg struct {
 func segs(s string) (out []seg, ok bool) {
 	ok = true
 	open := false
-	var cur strings.Builder
-	flush := func(unsafe bool) {
-		if cur.Len() == 0 {
+	add := func(unsafe bool, text string) {
+		if text == "" {
 			return
 		}
 		if n := len(out); n > 0 && out[n-1].unsafe == unsafe {
-			out[n-1].text += cur.String()
+			out[n-1].text += text
 		} else {
-			out = append(out, seg{unsafe, cur.String()})
+			out = append(out, seg{unsafe, text})
 		}
-		cur.Reset()
 	}
+	start := 0
 	for i := 0; i < len(s); {
-		if strings.HasPrefix(s[i:], mStart) {
+		k := strings.IndexByte(s[i:], mStart[0])
+		if k < 0 {
+			break
+		}
+		i += k
+		switch {
+		case strings.HasPrefix(s[i:], mStart):
 			if open {
 				ok = false
 			}
-			flush(open)
+			add(open, s[start:i])
 			open = true
 			i += len(mStart)
-			continue
-		}
-		if strings.HasPrefix(s[i:], mEnd) {
+			start = i
+		case strings.HasPrefix(s[i:], mEnd):
 			if !open {
 				ok = false
 			}
-			flush(open)
+			add(open, s[start:i])
 			open = false
 			i += len(mEnd)
-			continue
+			start = i
+		default:
+			i++
 		}
-		cur.WriteByte(s[i])
-		i++
 	}
 	if open {
 		ok = false
 	}
-	flush(open)
+	add(open, s[start:])
 	return out, ok
 }
 
